@@ -55,11 +55,31 @@ def generate(tier, seed):
                 if sum(1 for f in fl if f in (1, 4)) >= minfit:
                     break
             extra.append(fitcase.gen_source(rng, nb, flags=fl))
+        if mode == '3d' and nb >= 2:
+            # twins: the same flags and photometry, but the limits of one carry confidence 0 (then they constrain nothing) and those of the other do not
+            a = extra[0]
+            lim = [j for j, f in enumerate(a['flags']) if f in (2, 3)]
+            if not lim:
+                cand = [j for j, f in enumerate(a['flags']) if f not in (1, 4)] or [j for j in range(nb)][-1:]
+                fitted = sum(1 for f in a['flags'] if f in (1, 4))
+                j = cand[0]
+                if a['flags'][j] not in (1, 4) or fitted > minfit:
+                    a['flags'][j] = rng.choice([2, 3])
+                    a['flux'][j] = abs(a['flux'][j]) if a['flux'][j] and a['flux'][j] > 0 and math.isfinite(a['flux'][j]) else 1.0
+                    lim = [j]
+            if lim:
+                b = dict(a, flags=list(a['flags']), flux=list(a['flux']), err=list(a['err']), name='twin')
+                for j in lim:
+                    a['err'][j] = rng.choice([0.5, 0.9, 0.25])
+                    b['err'][j] = 0.0
+                extra[1] = b
         c['others'] = extra
         hist = [rng.choice([1, 2])] + [rng.randrange(3) for _ in range(rng.randint(1, 5))]      # start with another source, come back to the base source
         if 0 not in hist:
             hist.append(0)
-        c['history'] = hist if k % 4 == 0 or tier == 'thorough' else hist[:3]
+        if mode == '3d' and k % 2 == 0:
+            hist = rng.choice([[1, 2], [2, 1]]) + hist      # the twins one after the other, in either order
+        c['history'] = hist if k % 4 == 0 or tier == 'thorough' else hist[:4]
         cases.append(c)
     return cases
 
